@@ -1,11 +1,13 @@
-(* C08 (layer 1): the helper collections of the query engine.
+(* C08.  Layer 1: the helper collections of the query engine.
    LIMIT returns the documented slice for every list and every pair of
    bounds; Handles::union is the duplicate-free union (order retained, sorted
    collections stay sorted), Handles::intersection is the set intersection,
    and contains() answers correctly after any of them because the `sorted`
    flag always describes the array. *)
-From Coq Require Import ZArith.
+From Coq Require Import ZArith NArith List Permutation.
+Import ListNotations.
 From Stam Require Import Base.Tac Model.Limit Model.Handles Spec.HandlesSpec Proofs.Limit Proofs.Handles.
+From Stam Require Import Model.Offset Model.Store Model.DataValue Model.QuerySem Spec.QuerySpec Proofs.QuerySem.
 
 Theorem C08_limit_is_slice : forall (X : Type) (bg en : Z) (l : list X),
   limit bg en l = slice_spec bg en l.
@@ -52,3 +54,152 @@ Proof.
   repeat split; try reflexivity; try (repeat constructor; cbn; intuition lia);
     try (cbn; intros; discriminate).
 Qed.
+
+(** * Layer 2: the meaning of queries ([sem], Model/QuerySem.v), for every store, environment and
+    query of the fragment - nothing below is bounded. *)
+
+(* a level selects exactly the live items of the result type that satisfy every constraint *)
+Theorem C08_level_selected : forall s e rt cs it,
+  In it (level s e rt cs None) <-> selected s e rt cs it.
+Proof. exact level_selected. Qed.
+
+(* each once *)
+Theorem C08_level_NoDup : forall s e rt cs, NoDup (level s e rt cs None).
+Proof. exact level_NoDup. Qed.
+
+(* the order in which the constraints are written does not matter - at any level of the query *)
+Theorem C08_sem_perm : forall s q q' e, qperm q q' -> sem s e q = sem s e q'.
+Proof. exact sem_perm. Qed.
+
+Theorem C08_sem_perm_level : forall s e n rt cs cs' lim o sub,
+  Permutation cs cs' -> sem s e (Q n rt cs lim o sub) = sem s e (Q n rt cs' lim o sub).
+Proof. exact sem_perm_level. Qed.
+
+(* nor the order of the branches of a UNION *)
+Theorem C08_union_perm : forall s e l l' it,
+  Permutation l l' -> csat s e (CUnion l) it = csat s e (CUnion l') it.
+Proof. exact csat_union_perm. Qed.
+
+(* a UNION is the union of its branches, without duplicates *)
+Theorem C08_sem_union : forall s e rt l,
+  level s e rt [CUnion l] None = union_of (universe s rt) (map (branch_result s e rt) l).
+Proof. exact sem_union. Qed.
+
+Theorem C08_sem_union_members : forall s e rt l it,
+  In it (level s e rt [CUnion l] None) <-> exists c, In c l /\ In it (branch_result s e rt c).
+Proof. exact sem_union_members. Qed.
+
+(* LIMIT is the slice of the unlimited results (positive and negative bounds) *)
+Theorem C08_sem_limit : forall s e rt cs bg en,
+  level s e rt cs (Some (bg, en)) = slice_spec bg en (level s e rt cs None).
+Proof. exact sem_limit. Qed.
+
+(* sub-queries are nested iteration with the outer variable bound; OPTIONAL leaves the outer item
+   alone when the sub-query has nothing for it *)
+Theorem C08_sem_subquery : forall s e n rt cs lim o sq,
+  sem s e (Q n rt cs lim o (Some sq)) = nested s e n (level s e rt cs lim) sq.
+Proof. exact sem_subquery. Qed.
+
+Theorem C08_sem_subquery_rows : forall s e n rt cs lim o sq it r,
+  In (it :: r) (sem s e (Q n rt cs lim o (Some sq))) <->
+  In it (level s e rt cs lim)
+  /\ (In r (sem s ((n, it) :: e) sq)
+      \/ (r = [] /\ q_opt sq = true /\ sem s ((n, it) :: e) sq = [])).
+Proof. exact sem_subquery_rows. Qed.
+
+(* ADD and DELETE change the store as the direct calls on the selected rows do *)
+Theorem C08_sem_add : forall s a, exec_add s a (sem s [] (add_sub a)) = spec_add s a.
+Proof. exact sem_add. Qed.
+
+Theorem C08_sem_delete : forall s x sub, exec_delete s x sub (sem s [] sub) = spec_delete s x sub.
+Proof. exact sem_delete. Qed.
+
+(** * Layer 3: the classes of queries on which the evaluator (as far as modelled: the dispatch
+    tables, the routes through AnnotationSelectors, the source orders and the QueryIter state
+    machine, [run_machine]) is known not to return [sem]; each with a witness on one store. *)
+Definition Known_C08_delete_nosub (nosub : bool) : bool := nosub.
+Definition Known_C08_position (q : query) : bool := negb (all_levels_ok q).
+Definition Known_C08_indirect (s : store) (q : query) : bool := indirect_q q && has_higher_order s.
+Definition Known_C08_optional (s : store) (q : query) : bool := optional_empty s [] q.
+Definition Known_C08_limit_order (q : query) : bool := limit_order q.
+Definition Known_C08_orphan_text (s : store) (q : query) : bool :=
+  text_source q (fun c => match c with CRes _ _ | CRel _ _ => true | _ => false end) && has_orphan_text s.
+Definition Known_C08_text_occurrences (q : query) : bool :=
+  text_source q (fun c => match c with CText _ _ => true | _ => false end).
+Definition Known_C08_text_any (q : query) : bool := text_first q.
+Definition Known_C08_text_union (q : query) : bool := text_union q.
+
+Definition wtxt (r b e : nat) := BText (ById r) (mkoff (CB b) (CB e)).
+Definition wdat (d k : nat) (v : value) := mkdb (ById d) None (Some (ById k)) v.
+(* r0 (12 codepoints), r1 (8); a0 on r0 as a whole, a1 = r0[0..3] {s0.k0=1}, a2 = r0[2..5]
+   {s0.k0=2, s0.k1="a"}, a3 on a1 {s1.k0=1}, a4 = {r0[0..1], r1[4..6]}, a5 = r1[1..4] removed again *)
+Definition W : store :=
+  run [AddRes 0 12; AddRes 1 8;
+       Annotate (mkab (Some 0) (Some (BRes (ById 0))) []);
+       Annotate (mkab (Some 1) (Some (wtxt 0 0 3)) [wdat 0 0 (VInt 1)]);
+       Annotate (mkab (Some 2) (Some (wtxt 0 2 5)) [wdat 0 0 (VInt 2); wdat 0 1 (VStr [97%N])]);
+       Annotate (mkab (Some 3) (Some (BAnn (ById 1) None)) [wdat 1 0 (VInt 1)]);
+       Annotate (mkab (Some 4) (Some (BComplex 1 [wtxt 0 0 1; wtxt 1 4 6])) []);
+       Annotate (mkab (Some 5) (Some (wtxt 1 1 4)) []);
+       RmAnn (ById 5)].
+
+(* SELECT DATA WHERE VALUE = 2; ANNOTATION "a2"; *)
+Lemma Known_C08_position_witness :
+  let q := Q 0 TData [CVal (OpEqInt 2); CAnn (RId 2) false] None false None in
+  Known_C08_position q = true /\ run_machine W q = Some [] /\ sem W [] q = [[IData 0 1]].
+Proof. vm_compute. repeat split. Qed.
+
+(* SELECT ANNOTATION WHERE DATASET "s1"; RESOURCE "r0"; *)
+Lemma Known_C08_indirect_witness :
+  let q := Q 0 TAnn [CSet (RId 1) false; CRes (RId 0) false] None false None in
+  Known_C08_indirect W q = true /\ run_machine W q = Some [[IAnn 3]] /\ sem W [] q = [].
+Proof. vm_compute. repeat split. Qed.
+
+(* SELECT ANNOTATION ?v0 { SELECT OPTIONAL DATA ?v1 WHERE ANNOTATION ?v0; } *)
+Lemma Known_C08_optional_witness :
+  let q := Q 0 TAnn [] None false (Some (Q 1 TData [CAnn (RVar 0) false] None true None)) in
+  Known_C08_optional W q = true /\ run_machine W q = Some [[IAnn 0]]
+  /\ sem W [] q = [[IAnn 0]; [IAnn 1; IData 0 0]; [IAnn 2; IData 0 1]; [IAnn 2; IData 0 2];
+                   [IAnn 3; IData 1 0]; [IAnn 4]].
+Proof. vm_compute. repeat split. Qed.
+
+(* SELECT ANNOTATION WHERE [ ID "a2" OR ID "a1" ]; LIMIT 0 1; *)
+Lemma Known_C08_limit_order_witness :
+  let q := Q 0 TAnn [CUnion [CId 2; CId 1]] (Some (0, 1)%Z) false None in
+  Known_C08_limit_order q = true /\ run_machine W q = Some [[IAnn 2]] /\ sem W [] q = [[IAnn 1]].
+Proof. vm_compute. repeat split. Qed.
+
+(* SELECT TEXT WHERE RESOURCE "r1"; *)
+Lemma Known_C08_orphan_text_witness :
+  let q := Q 0 TText [CRes (RId 1) false] None false None in
+  Known_C08_orphan_text W q = true /\ run_machine W q = Some [[IText 1 1 4]; [IText 1 4 6]]
+  /\ sem W [] q = [[IText 1 4 6]].
+Proof. vm_compute. repeat split. Qed.
+
+(* SELECT TEXT WHERE TEXT "a"; *)
+Lemma Known_C08_text_occurrences_witness :
+  let q := Q 0 TText [CText [97%N] false] None false None in
+  Known_C08_text_occurrences q = true
+  /\ run_machine W q = Some [[IText 0 0 1]; [IText 0 7 8]; [IText 1 0 1]; [IText 1 7 8]]
+  /\ sem W [] q = [[IText 0 0 1]].
+Proof. vm_compute. repeat split. Qed.
+
+(* SELECT ANNOTATION WHERE TEXT "a"; *)
+Lemma Known_C08_text_any_witness :
+  let q := Q 0 TAnn [CText [97%N] false] None false None in
+  Known_C08_text_any q = true /\ run_machine W q = Some [[IAnn 4]] /\ sem W [] q = [].
+Proof. vm_compute. repeat split. Qed.
+
+(* SELECT TEXT WHERE [ RESOURCE "r0" OR RESOURCE "r1" ]; *)
+Lemma Known_C08_text_union_witness :
+  let q := Q 0 TText [CUnion [CRes (RId 0) false; CRes (RId 1) false]] None false None in
+  Known_C08_text_union q = true /\ run_machine W q = None
+  /\ sem W [] q = [[IText 0 0 1]; [IText 0 0 3]; [IText 0 2 5]; [IText 1 4 6]].
+Proof. vm_compute. repeat split. Qed.
+
+(* non-vacuity of layer 2: a query with two levels, a UNION and a LIMIT on the store above *)
+Example C08_sem_nonvacuous :
+  sem W [] (Q 0 TAnn [CRes (RId 0) false; CUnion [CKeyVal 0 0 (OpEqInt 2) false; CId 1]] (Some (0, 2)%Z) false
+              (Some (Q 1 TData [CAnn (RVar 0) false; CVal (OpNot OpNull)] None false None)))
+  = [[IAnn 1; IData 0 0]; [IAnn 2; IData 0 1]; [IAnn 2; IData 0 2]].
+Proof. vm_compute. reflexivity. Qed.
